@@ -127,3 +127,101 @@ mutual
 end
 
 end Occa.Dtype
+
+namespace Occa.Dtype
+open Occa
+set_option linter.unusedSimpArgs false
+
+/-- memory or null: what setupRun calls `isPtr` of an argument -/
+def Arg.isPtrLike : Arg → Bool
+  | .mem _ => true
+  | .null => true
+  | _ => false
+
+/-- the exception setupRun raises for a non-fitting argument `a` at (1-based) position `i` -/
+def errKind (a : Arg) (m : ArgMeta) (i : Nat) : VErr :=
+  if a.isPtrLike != m.isPtr then (if m.isPtr then .expectsMemory i else .expectsNonMemory i)
+  else .wrongType i
+
+/-- an error of the argument loop is the error of the FIRST non-fitting argument -/
+theorem validateArgs_error (hG : Gen.cyclicGuard = true) :
+    ∀ (args : List Arg) (ms : List ArgMeta) (i : Nat) (e : VErr), args.length = ms.length →
+      validateArgs args ms i = .error e →
+      ∃ k, ∃ (h1 : k < args.length) (h2 : k < ms.length),
+        (∀ j (g1 : j < args.length) (g2 : j < ms.length), j < k → ArgFits args[j] ms[j]) ∧
+        ¬ ArgFits args[k] ms[k] ∧ e = errKind args[k] ms[k] (i + k)
+  | [], [], _, _, _, h => by simp [validateArgs, pure, Except.pure] at h
+  | [], _ :: _, _, _, h, _ => by simp at h
+  | _ :: _, [], _, _, h, _ => by simp at h
+  | a :: as, m :: ms, i, e, hl, h => by
+      have hl' : as.length = ms.length := by simpa using hl
+      have ih := validateArgs_error hG as ms (i + 1) e hl'
+      -- either this argument fails (k = 0) or it fits and the error comes from the tail
+      by_cases hfit : ArgFits a m
+      · have htail : validateArgs as ms (i + 1) = .error e := by
+          cases a with
+          | mem d =>
+            obtain ⟨hp, hc⟩ := hfit
+            obtain ⟨r, hr, hr'⟩ := canCast_spec hG d m.dtype
+            have : r = true := hr'.mpr hc
+            subst this
+            simpa [validateArgs, hp, hr, bind, Except.bind] using h
+          | null =>
+            have hp : m.isPtr = true := hfit
+            simpa [validateArgs, hp, bind, Except.bind] using h
+          | scalar =>
+            have hp : m.isPtr = false := hfit
+            simpa [validateArgs, hp, bind, Except.bind] using h
+          | hostPtr =>
+            have hp : m.isPtr = false := hfit
+            simpa [validateArgs, hp, bind, Except.bind] using h
+        obtain ⟨k, h1, h2, hbefore, hnot, he⟩ := ih htail
+        refine ⟨k + 1, by simpa using h1, by simpa using h2, ?_, by simpa using hnot, ?_⟩
+        · intro j g1 g2 hj
+          cases j with
+          | zero => simpa using hfit
+          | succ j =>
+            have := hbefore j (by simpa using g1) (by simpa using g2) (by omega)
+            simpa using this
+        · have : i + (k + 1) = i + 1 + k := by omega
+          simpa [this] using he
+      · refine ⟨0, by simp, by simp, by intro j _ _ hj; omega, by simpa using hfit, ?_⟩
+        cases a with
+        | mem d =>
+          cases hp : m.isPtr with
+          | false =>
+            simp [validateArgs, hp, throw, throwThe, MonadExceptOf.throw, bind, Except.bind] at h
+            simp [errKind, Arg.isPtrLike, hp, h]
+          | true =>
+            obtain ⟨r, hr, hr'⟩ := canCast_spec hG d m.dtype
+            have hno : ¬ CastOK d m.dtype := fun hc => hfit ⟨hp, hc⟩
+            have : r = false := by
+              cases r with
+              | false => rfl
+              | true => exact absurd (hr'.mp rfl) hno
+            subst this
+            simp [validateArgs, hp, hr, throw, throwThe, MonadExceptOf.throw, bind, Except.bind] at h
+            simp [errKind, Arg.isPtrLike, hp, h]
+        | null =>
+          have hp : m.isPtr = false := by
+            cases hq : m.isPtr with
+            | false => rfl
+            | true => exact absurd (show ArgFits .null m from hq) hfit
+          simp [validateArgs, hp, throw, throwThe, MonadExceptOf.throw, bind, Except.bind] at h
+          simp [errKind, Arg.isPtrLike, hp, h]
+        | scalar =>
+          have hp : m.isPtr = true := by
+            cases hq : m.isPtr with
+            | true => rfl
+            | false => exact absurd (show ArgFits .scalar m from hq) hfit
+          simp [validateArgs, hp, throw, throwThe, MonadExceptOf.throw, bind, Except.bind] at h
+          simp [errKind, Arg.isPtrLike, hp, h]
+        | hostPtr =>
+          have hp : m.isPtr = true := by
+            cases hq : m.isPtr with
+            | true => rfl
+            | false => exact absurd (show ArgFits .hostPtr m from hq) hfit
+          simp [validateArgs, hp, throw, throwThe, MonadExceptOf.throw, bind, Except.bind] at h
+          simp [errKind, Arg.isPtrLike, hp, h]
+
+end Occa.Dtype
